@@ -516,3 +516,30 @@ def keyword_word_boundary_rule(ctx, res, rule: str) -> None:
                     f"that merely ends in '{kw.value}' (copied_{kw.value}.path) is treated as the keyword, the attribute is cut off from its object and "
                     "cannot be evaluated (go-to-definition raises, completion offers nothing)", function=f.qualname)
     res.floor(rule, "keyword recognised by a text slice in the word finder", n, 1)
+
+
+def import_binding_rule(ctx, res, rule: str) -> None:
+    """Shared by C03/C15: `import a.b.c` binds the name `a` (the first component); only `import a.b.c as x` binds x.
+    Every `_Import` handler that enters names into a table (a scope's `names`, the extract collector's write sets) takes
+    the first dotted component of alias.name for the no-alias case: `<name>.split(".")[0]` / `.partition(".")[0]`."""
+    idx = ctx.idx
+    n = 0
+    for q, c in sorted(idx.classes.items()):
+        if c.unit.modname not in ("rope.base.pyobjectsdef", "rope.refactor.extract"):
+            continue
+        h = c.methods.get("_Import")
+        if h is None:
+            continue
+        binds = any(isinstance(x, ast.Assign) and any(isinstance(t, ast.Subscript) and is_self_attr(t.value) for t in x.targets) for x in walk_local(h.node)) or \
+            any(is_self_attr(cc.func) and "written" in cc.func.attr for cc in calls_in(h.node))
+        if not binds:
+            continue
+        n += 1
+        first = any(isinstance(x, ast.Subscript) and isinstance(x.slice, ast.Constant) and x.slice.value == 0 and isinstance(x.value, ast.Call)
+                    and isinstance(x.value.func, ast.Attribute) and x.value.func.attr in ("split", "partition")
+                    and x.value.args and isinstance(x.value.args[0], ast.Constant) and x.value.args[0].value == "." for x in ast.walk(h.node))
+        res.add(rule, f"{c.name}._Import|first-component", first, h.where,
+                "without an alias the first dotted component of the module name is bound" if first else
+                f"{c.name}._Import enters the whole dotted module name (`a.b.c`) instead of its first component (`a`): `import os.path` inside the "
+                "analysed code binds a name that does not exist, and the real one (`os`) is not known as bound there", function=h.qualname)
+    res.floor(rule, "Import handlers that bind names", n, 2)
